@@ -147,7 +147,9 @@ def structure_oracle(ctx, name, ml, Auser, Acopy, rkind, max_levels, case, filt=
             else:
                 alt = Rf.toarray()
         # rounding of the triple product scales with |R| |A| |P| (no absolute term: the rule is scale invariant)
-        gtol = 1e-11 * np.linalg.norm(Rd, 2) * np.linalg.norm(Ad, 2) * np.linalg.norm(Pd, 2) + 1e-300
+        # (in the precision of the level: single-precision inputs give single-precision products)
+        prec = max(1e-11, 200 * float(np.finfo(Ac.dtype).eps)) if np.issubdtype(Ac.dtype, np.inexact) else 1e-11
+        gtol = prec * np.linalg.norm(Rd, 2) * np.linalg.norm(Ad, 2) * np.linalg.norm(Pd, 2) + 1e-300
         if _nn(np.linalg.norm(Acd - rap)) > gtol and (alt is None or _nn(np.linalg.norm(Acd - alt)) > gtol):
             ctx.fail('not-galerkin/' + name, 'level %d: |A_c - R A P| = %.3g' % (l + 1, np.linalg.norm(Acd - rap)), case)
         if rkind == 'hermitian' and not np.array_equal(Rd, Pd.conj().T):
@@ -180,6 +182,12 @@ def inputs(ctx):
     base = dict((n, A) for n, A in mats)['poisson2d-6x5']
     out.append(('poisson2d-6x5*2^-60', sp.csr_array(base * 2.0 ** -60), 'spd'))
     out.append(('poisson2d-6x5*2^60', sp.csr_array(base * 2.0 ** 60), 'spd'))
+    # integer and single-precision inputs: the finest level keeps every digit of the user's entries (entries beyond 2^24 do not
+    # fit a float32 mantissa), int32 / int64 / float32 data
+    big = sp.csr_array(base * 20000001.0)
+    out.append(('poisson2d-6x5*int32', sp.csr_array(big.astype(np.int32)), 'spd'))
+    out.append(('poisson2d-6x5*int64', sp.csr_array(big.astype(np.int64)), 'spd'))
+    out.append(('poisson2d-6x5*float32', sp.csr_array(base.astype(np.float32) * np.float32(0.1)), 'spd'))
     return out
 
 
@@ -253,7 +261,7 @@ def run(ctx):
     rng2 = ctx.sub('adaptive')
     from pyamg.gallery import poisson as _poisson
     for iname, A, kind in ins + [('poisson2d-10x10', sp.csr_array(_poisson((10, 10), format='csr')), 'spd')]:
-        if kind != 'spd' or not sp.issparse(A) or A.format not in ('csr', 'bsr') or A.shape[0] < 12 or iname == 'diag-12':
+        if kind != 'spd' or not sp.issparse(A) or A.format not in ('csr', 'bsr') or A.shape[0] < 12 or iname == 'diag-12' or A.dtype == np.float32:
             continue          # (a diagonal matrix has no connections: the adaptive candidate is rejected as zero)
         Acopy = hier.dense_of(A).copy()
         for ml_ in (1, 2, 3, 5):
